@@ -89,39 +89,54 @@ func customC14(r *Run) ([]Crash, error) {
 		fi := cand[pi]
 		bi := slot[fi]
 		f := forests[fi]
-		sig := sigs[fi]
-		off := shapes.SigOffset(shapes.Sig(f), 8)
-		o := shapes.EmitOpts{Offset: off}
-		bn := fmt.Sprintf("b%04d", bi)
-		g := group{base: shapes.Src{Name: bn, Type: "T", Sig: sig, Code: shapes.Source(f, o), Meta: map[string]string{"role": "base"}}}
-		ex := shapes.ExcludedVariants(f, o, bi*3)
-		em := shapes.EmbedVariants(f, o)
-		var chosen []shapes.Variant
-		if r.Thorough() {
-			chosen = append(append(chosen, ex...), em...)
-			if len(groups)%12 == 0 {
-				// every form at every position for one base in twelve
-				chosen = append(chosen, shapes.ExcludedAllForms(f, o)...)
-				r.M.Counters["bases_with_every_form_at_every_position"]++
-			}
-		} else {
-			// two single insertions (rotating), the all-positions variant, two embeddings (rotating)
-			singles := ex[:len(ex)-1]
-			chosen = append(chosen, singles[bi%len(singles)], singles[(bi*7+3)%len(singles)], ex[len(ex)-1])
-			if len(em) > 0 {
-				chosen = append(chosen, em[bi%len(em)], em[(bi*5+1)%len(em)])
-			}
-		}
-		seen := map[string]bool{}
-		for vi, v := range chosen {
-			if seen[v.Kind+v.Desc] {
+		for _, local := range []bool{false, true} {
+			// one base in four is built a second time with field names numbered per struct, so
+			// that nested structs repeat the names of the structs around them
+			if local && (bi%4 != 1 || !strings.Contains(sigs[fi], "g")) {
 				continue
 			}
-			seen[v.Kind+v.Desc] = true
-			g.vars = append(g.vars, shapes.Src{Name: fmt.Sprintf("%sv%02d", bn, vi), Type: "T", Sig: sig + "+" + v.Desc, Code: v.Code,
-				Meta: map[string]string{"base": bn, "kind": v.Kind, "decor": v.Desc, "depth": fmt.Sprint(v.Depth), "forms": strings.Join(v.Forms, ","), "ctx": v.Ctx}})
+			sig := sigs[fi]
+			off := shapes.SigOffset(shapes.Sig(f), 8)
+			o := shapes.EmitOpts{Offset: off, LocalNames: local}
+			bn := fmt.Sprintf("b%04d", bi)
+			if local {
+				sig += "n"
+				bn += "n"
+				r.M.Counters["bases_with_repeated_field_names"]++
+			}
+			g := group{base: shapes.Src{Name: bn, Type: "T", Sig: sig, Code: shapes.Source(f, o), Meta: map[string]string{"role": "base"}}}
+			ex := shapes.ExcludedVariants(f, o, bi*3)
+			em := shapes.EmbedVariants(f, o)
+			var chosen []shapes.Variant
+			if r.Thorough() {
+				chosen = append(append(chosen, ex...), em...)
+				if len(groups)%12 == 0 {
+					// every form at every position for one base in twelve
+					chosen = append(chosen, shapes.ExcludedAllForms(f, o)...)
+					r.M.Counters["bases_with_every_form_at_every_position"]++
+				}
+			} else if local {
+				// repeated names matter for embedding: every run
+				chosen = append(chosen, em...)
+			} else {
+				// two single insertions (rotating), the all-positions variant, two embeddings (rotating)
+				singles := ex[:len(ex)-1]
+				chosen = append(chosen, singles[bi%len(singles)], singles[(bi*7+3)%len(singles)], ex[len(ex)-1])
+				if len(em) > 0 {
+					chosen = append(chosen, em[bi%len(em)], em[(bi*5+1)%len(em)])
+				}
+			}
+			seen := map[string]bool{}
+			for vi, v := range chosen {
+				if seen[v.Kind+v.Desc] {
+					continue
+				}
+				seen[v.Kind+v.Desc] = true
+				g.vars = append(g.vars, shapes.Src{Name: fmt.Sprintf("%sv%02d", bn, vi), Type: "T", Sig: sig + "+" + v.Desc, Code: v.Code,
+					Meta: map[string]string{"base": bn, "kind": v.Kind, "decor": v.Desc, "depth": fmt.Sprint(v.Depth), "forms": strings.Join(v.Forms, ","), "ctx": v.Ctx}})
+			}
+			groups = append(groups, g)
 		}
-		groups = append(groups, g)
 	}
 	if r.Replay != nil {
 		// rebuild only the group of the replayed variant
